@@ -707,7 +707,21 @@ func c11H2CMessages(quick bool) [][]byte {
 		msgs = append(msgs, b)
 	}
 	msgs = append(msgs, []byte("test_message"))
+	// messages that need many counter iterations (found by cmd/h2csearch, a search over "verif-h2c-<i>"; about one
+	// message in 2^k needs k iterations): 17 to 20 — the run asserts that the reference really iterates that often
+	for _, m := range c11ManyIterations {
+		msgs = append(msgs, []byte(m.msg))
+	}
 	return msgs
+}
+
+var c11ManyIterations = []struct {
+	msg  string
+	iter uint32
+}{
+	{"verif-h2c-20431", 17}, {"verif-h2c-382169", 17}, {"verif-h2c-511860", 19}, {"verif-h2c-861961", 18}, {"verif-h2c-990424", 18},
+	{"verif-h2c-1011450", 18}, {"verif-h2c-1030646", 18}, {"verif-h2c-1128831", 17}, {"verif-h2c-1448310", 18}, {"verif-h2c-1501387", 17},
+	{"verif-h2c-1695570", 20}, {"verif-h2c-1792573", 17},
 }
 
 // ---------------------------------------------------------------- run
